@@ -168,7 +168,8 @@ func (a *cbpAnchors) multi(m *cbpMore) *multiAnchors {
 					x.load = y
 				}
 			case *ssa.Return:
-				for k, res := range y.Results {
+				for k := range y.Results {
+					res := core.ResultValue(y, k) // a deferred unlock spills the results into cells
 					if u, ok := res.(*ssa.UnOp); ok && u.Op == token.MUL && isErr(u.Type()) {
 						if _, isG := u.X.(*ssa.Global); isG {
 							x.refuseRet, x.refuseIdx = y, k
@@ -448,7 +449,7 @@ func c10_2(c *core.Ctx, p *core.Prog) {
 	fn = x.refuseRet.Parent()
 	pos := p.Pos(x.refuseRet.Pos())
 	// the returned global is built by consumererror.NewPermanent
-	g := x.refuseRet.Results[x.refuseIdx].(*ssa.UnOp).X.(*ssa.Global)
+	g := core.ResultValue(x.refuseRet, x.refuseIdx).(*ssa.UnOp).X.(*ssa.Global)
 	perm := false
 	if initFn := g.Pkg.Func("init"); initFn != nil {
 		core.EachInstr(initFn, func(i ssa.Instruction) {
